@@ -98,20 +98,18 @@ func ParseFloat(b []byte) (float64, int) {
 		// 0 * math.Pow10(out of range) is NaN
 		return f, i
 	}
-	h := f * math.Pow10(int(-mantExp))
-	h *= math.Pow10(int(expExp))
-	if h == 0.0 || math.IsInf(h, 0) {
-		// either factor alone can leave math.Pow10's [-323,308] domain
-		if exp < -308 {
-			f *= math.Pow10(-308)
-			exp += 308
-		} else if 308 < exp {
-			f *= math.Pow10(308)
-			exp -= 308
-		}
-		h = f * math.Pow10(int(exp))
+	// Scale by the net exponent in steps that keep every factor exact and every intermediate
+	// normal: math.Pow10 is imprecise below 1e-308 (subnormal), zero below 1e-323 and infinite
+	// above 1e308, and the two exponents on their own can leave that domain (0 * Inf is NaN).
+	for exp < -300 && f != 0.0 {
+		f *= 1e-300
+		exp += 300
 	}
-	return h, i
+	for 300 < exp && !math.IsInf(f, 0) {
+		f *= 1e300
+		exp -= 300
+	}
+	return f * math.Pow10(int(exp)), i
 }
 
 const log2 = 0.3010299956639812
